@@ -23,7 +23,7 @@ func C06() *engine.Scenario {
 		Level:      "fault_enumeration",
 		MapSched:   true,
 		Setup:      loadKeys,
-		Rule:       "Uploader's signing stage. Each run: a step tree mixing command/wait/input/trigger/group/unknown steps, groups nested to depth 4, 0-2 unknown steps wherever the Author's kind choice puts them (any position, any depth), pipeline env x step env overlaps, all key kinds; the real SignSteps runs with every map range in sched-tape order. Fault (S5): on the crypto.Signer path the signer returns an error on its k-th call, k sched-tape-chosen over the whole tree. One run in four an earlier, different WithEnv option precedes the real one: it must be neither signed nor written to. Oracle: unknown step anywhere => error; injected signer error => error; on nil error every command step at every depth carries a signature that verifies, names the key's algorithm, and whose signed_fields is exactly sort(5 mandatory + env::N for every pipeline env N not in the step's env); in all cases a deep dump (go-spew, unexported fields included) of the tree with signatures blanked and of the caller's env map is identical before and after. Fingerprint = (tree shape: kinds by depth, deepest command depth, unknown depth class, fault position, key kind, env overlap class). Non-trivial = a command step at depth >= 2, or an unknown step below the top level, or a fired signer fault.",
+		Rule:       "Uploader's signing stage. Each run: a step tree mixing command/wait/input/trigger/group/unknown steps, groups nested to depth 4, 0-2 unknown steps wherever the Author's kind choice puts them (any position, any depth), pipeline env x step env overlaps, all key kinds; the real SignSteps runs with every map range in sched-tape order. Fault (S5): on the crypto.Signer path the signer returns an error on its k-th call, k sched-tape-chosen over the whole tree. Further faults and options: the caller's context is already cancelled, or is cancelled by the k-th signing call; debug signing on, with or without a logger. One run in four an earlier, different WithEnv option precedes the real one: it must be neither signed nor written to. Oracle: unknown step anywhere => error; injected signer error => error; on nil error every command step at every depth carries a signature that verifies, names the key's algorithm, and whose signed_fields is exactly sort(5 mandatory + env::N for every pipeline env N not in the step's env); in all cases a deep dump (go-spew, unexported fields included) of the tree with signatures blanked and of the caller's env map is identical before and after. Fingerprint = (tree shape: kinds by depth, deepest command depth, unknown depth class, fault position, key kind, env overlap class). Non-trivial = a command step at depth >= 2, or an unknown step below the top level, or a fired signer fault.",
 		Real:       []string{"pipeline.Parse", "signature.SignSteps", "signature.Sign", "CommandStepWithInvariants.SignedFields", "signature.Verify", "jwx"},
 		Stub:       []string{"Author", "failing crypto.Signer wrapper (S5)", "map iteration scheduler (zzverifsim)", "go-spew deep dump as observer"},
 		Assume:     []string{"a signing failure on a fault-free tree without unknown steps is not what C06 states (C02 would fail instead): counted as a probe", "which steps are 'of unknown kind' is read from the parsed tree (*pipeline.UnknownStep)"},
@@ -136,10 +136,41 @@ func runC06(c *engine.Ctx) {
 		sopts = []signature.Option{signature.WithEnv(earlier), signature.WithEnv(signEnv)}
 		c.Probe("two_withenv_options")
 	}
+	// the other options: debug signing with or without a logger (observers: they change nothing)
+	switch p.Draw(6, "cfg:debug-signing") {
+	case 4:
+		sopts = append(sopts, signature.WithDebugSigning(true))
+		c.Probe("debug_signing_runs")
+	case 5:
+		sopts = append(sopts, signature.WithDebugSigning(true), signature.WithLogger(&payloadLogger{}))
+		c.Probe("debug_signing_runs")
+	}
+	// the caller's context: live, already cancelled, or cancelled by the k-th signing call (S5). Whatever the
+	// library makes of a dead context, a nil error still means "everything signed".
+	ctx, cancel := context.WithCancel(context.Background())
+	defer cancel()
+	ctxMode := p.Draw(8, "cfg:ctx")
+	cancelAt := 0
+	switch {
+	case ctxMode == 6:
+		cancel()
+		c.Fault("context_cancelled_before_signing", 0)
+	case ctxMode == 7 && kp.signer != nil && st.cmds > 0:
+		cancelAt = 1 + c.Sched.Draw(st.cmds, "signer:cancelat")
+		*kp.signer.hook = func(call int) {
+			if call == cancelAt {
+				cancel()
+			}
+		}
+		defer func() { *kp.signer.hook = nil }()
+	}
 	var err error
 	c.Guard("C06.panic", "SignSteps", func() {
-		err = signature.SignSteps(context.Background(), pl.Steps, kp.priv, repoURL, sopts...)
+		err = signature.SignSteps(ctx, pl.Steps, kp.priv, repoURL, sopts...)
 	})
+	if cancelAt != 0 && *kp.signer.calls >= cancelAt {
+		c.Fault("context_cancelled_at_signing_call", cancelAt)
+	}
 	if earlier != nil {
 		if after := deepDump.Sdump(earlier); after != earlierBefore {
 			c.Fail("C06.mutated-env", "earlier WithEnv map", "SignSteps modified the map of an earlier WithEnv option:\n%s", firstDiffLine(earlierBefore, after))
@@ -231,8 +262,8 @@ func runC06(c *engine.Ctx) {
 		c.Probe("unknown_below_top_level")
 	}
 	c.ProbeN("env_overlaps", overlap)
-	nt := st.maxCmdDepth >= 2 || st.maxUnknownDepth >= 2 || faultFired
-	c.Fingerprint(nt, strings.Join(st.shape, ""), st.maxCmdDepth, st.maxUnknownDepth, failAt, faultFired, kp.kind, min(overlap, 3), len(signEnv) > 0)
+	nt := st.maxCmdDepth >= 2 || st.maxUnknownDepth >= 2 || faultFired || cancelAt != 0 || ctxMode == 6
+	c.Fingerprint(nt, strings.Join(st.shape, ""), st.maxCmdDepth, st.maxUnknownDepth, failAt, faultFired, kp.kind, min(overlap, 3), len(signEnv) > 0, ctxMode >= 6, cancelAt)
 }
 
 func firstDiffLine(a, b string) string {
